@@ -58,7 +58,9 @@ func c08SameEntry(a, b database.Command) bool {
 }
 
 // one save from an arbitrary notebook (missing, or m entries possibly with duplicate command strings)
-func c08Save(maxExisting int) {
+func c08Save(maxExisting int) { c08SaveWith(maxExisting, c08Entry) }
+
+func c08SaveWith(maxExisting int, c08Entry func(string) database.Command) {
 	path := verifFSRoot() + "/cfg/wtf/personal.yml"
 	m := verifIntRange("existing", -1, maxExisting) // -1: no file yet
 	var old []database.Command
@@ -107,6 +109,17 @@ func c08Save(maxExisting int) {
 
 func VerifHarness_C08_Save2() { c08Save(2) }
 func VerifHarness_C08_Save3() { c08Save(3) }
+
+// command strings that differ only in white space, letter case or a trailing line break are
+// different command strings: each keeps its own entry
+func VerifHarness_C08_SaveNearDuplicates() {
+	family := []string{"echo hi", "echo  hi", "echo\thi", "Echo hi", "echo hi ", " echo hi", "echo\nhi", "echo hi\n", "echo hi\r\n", "\"echo hi\""}
+	n := 0
+	c08SaveWith(2, func(name string) database.Command {
+		n++
+		return database.Command{Command: family[verifIntRange(name+".variant", 0, len(family)-1)], Description: name + string(rune('0'+n))}
+	})
+}
 
 // ---- C09: an interrupted or failed write never damages the notebook ----
 func VerifHarness_C09_Notebook() {
